@@ -104,7 +104,9 @@ def _get_volume_frustum_cone(tree: Tree, *, accuracy: int) -> float:
         if accuracy >= 3:
             v -= sum(sphere.intersect(fc).get_volume() for fc in cones)
             v -= sum(s.intersect(fc).get_volume() for s, fc in zip(children, cones))
-            v += sum(s.intersect(sphere).get_volume() for s in children)
+            # the lens shared by two neighbouring spheres lies inside their
+            # frustum cone, it is removed once with each sphere above and
+            # must not be added back
 
         if accuracy >= 5:
             v -= sum(
